@@ -17,6 +17,19 @@ from harness import c14_gen as G
 from harness import schema_xml as X
 
 PROP = "C14"
+# 1 = the code after the fix: commits for C14-F1 (validators only run on attributes declared for the section) and
+# C14-F2 (verify_tag_id / tag_is_deprecated_check use the entry's own inLibrary value): the model runs with
+# fixed_all and the oracle demands the full statement; 0 = the code before them (model fixed_none, the two classes
+# are accepted as the recorded, repaired defects)
+FIXED = int(os.environ.get("VERIF_C14_FIXED", "1"))
+LEGACY = {
+    "C14-F1": {"property": "C14", "id": "C14-F1", "what": "(repaired; VERIF_C14_FIXED=0) the validators of an attribute "
+               "that is undeclared for the section were still run; one written for another entry class or for string "
+               "values raised AttributeError instead of SCHEMA_ATTRIBUTE_INVALID being reported"},
+    "C14-F2": {"property": "C14", "id": "C14-F2", "what": "(repaired; VERIF_C14_FIXED=0) for a library tag nested under "
+               "a library tag of a partnered 8.3-style schema the inherited inLibrary value 'score,score' named no "
+               "library: no id range, an out-of-range hedId was not reported"},
+}
 COQ_TARGETS = ["Props/C14.vo", "Extract/ExtractC14.vo"]
 DRIVERS = ["c14"]
 TRUSTED = [
@@ -39,10 +52,15 @@ TRUSTED = [
 ]
 ASSUMPTIONS = [
     "the list of known versions / library id ranges is an input (hed cache directory listing, library_data.json)",
-    "per-rule and seeded-fault theorems are stated over ANY loaded schema record (lschema) and hold whenever the "
-    "check does not raise; that load() produces such a record from the XML is validated by correspondence (testing)",
-    "compliant_<v> examples are kernel evaluations (vm_compute) of the model on the translated bundled XML data with "
-    "the environment of the bundled package",
+    "per-rule and seeded-fault theorems are stated over ANY loaded schema record (lschema); for the repaired code they "
+    "need no 'does not raise' hypothesis but 'checkable E L' (environment readable, every declared attribute meets "
+    "rules written for its entry class and value type); that load() produces such a record from the XML is validated "
+    "by correspondence (testing)",
+    "VERIF_C14_FIXED=1 (default): model with both repairs, oracle demands the full statement; an attribute that the "
+    "schema generation does not declare for the section (deprecatedFrom / inLibrary before 8.2.0) is expected as "
+    "SCHEMA_ATTRIBUTE_INVALID, counted separately",
+    "C14_bundled_schemas_compliant and the seeded witnesses are kernel evaluations (VM) of the model on the translated "
+    "bundled XML data with the environment of the bundled package (one evaluation per schema, in parallel files)",
     "a changed hedId is not seedable on any bundled schema (no previous version records ids); it is exercised on a "
     "version-bumped copy of 8.3.0 for correspondence only and counted separately",
 ]
@@ -85,16 +103,14 @@ def full_name(raw):
 def translate():
     C.write_if_changed(os.path.join(C.COQ, "Gen", "ComplianceTables.v"), G.tables_text())
     raws, allsch = _all_raw()
-    loadable = []
     for k, raw in raws.items():
         mod = f"Schema_{k}_c14"
         C.write_if_changed(os.path.join(C.COQ, "Gen", mod + ".v"),
                            G.schema_text(raw, "schema", "hed/schema/schema_data/" + allsch[k]["file"]))
-        loadable.append((full_name(raw), mod, "schema"))
     data_dir = os.path.join(C.REPO, X.SCHEMA_DIR)
     C.write_if_changed(os.path.join(C.COQ, "Gen", "C14_Env.v"),
                        G.env_text(G.known_versions(data_dir), G.library_ranges(data_dir),
-                                  G.plural_table(raws.values()), loadable))
+                                  G.plural_table(raws.values())))
     return raws
 
 
@@ -451,14 +467,27 @@ def positions(doc, kind):
         for sec in SECS:
             for i, el in enumerate(doc.elems(sec)):
                 if has_own(doc, el, "hedId"):
-                    for val in ("HED_0000001", "HED_9999999"):
-                        out.append({"kind": kind, "sec": sec, "idx": i, "value": val})
+                    for bound in HED_ID_BOUNDS:
+                        out.append({"kind": kind, "sec": sec, "idx": i, "bound": bound})
     elif kind == "hed_id_changed":
         for sec in SECS:
             for i, el in enumerate(doc.elems(sec)):
                 if has_own(doc, el, "hedId"):
                     out.append({"kind": kind, "sec": sec, "idx": i})
     return out
+
+
+HED_ID_BOUNDS = ("zero", "one", "lo-1", "lo", "hi", "hi+1", "large")
+_id_ranges = None
+
+
+def id_ranges():
+    """{library: (lo, hi)} of library_data.json in the hed cache directory (what the implementation reads)."""
+    global _id_ranges
+    if _id_ranges is None:
+        from hed.schema import hed_cache
+        _id_ranges = {k: tuple(v) for k, v in G.library_ranges(hed_cache.HED_CACHE_DIRECTORY).items()}
+    return _id_ranges
 
 
 def origin(doc, el):
@@ -522,6 +551,12 @@ def apply_seed(doc, spec, rng):
                 return None
             add_attr(el, nm, pool[rng.randrange(len(pool))].find("name").text)
         return (sec, name, code)
+    if kind in ("deprecated_from", "in_library") and FIXED:
+        # a schema generation that does not declare the attribute for this section (deprecatedFrom / inLibrary before
+        # 8.2.0): the fault that is present is the undeclared attribute, and that is what is reported
+        if {"deprecated_from": "deprecatedFrom", "in_library": "inLibrary"}[kind] not in doc.declared_for(sec):
+            spec["subsumed_by_undeclared"] = True
+            code = SPEC_CODE["undeclared_attr"]
     if kind == "deprecated_from":
         if spec["how"] == "unknown":
             val = "99.0.0"
@@ -561,6 +596,18 @@ def apply_seed(doc, spec, rng):
         set_attr(doc, el, "inLibrary", "otherlib")
         return (sec, name, code)
     if kind == "hed_id_range":
+        if "value" not in spec:
+            # boundary values of the id range of the entry's OWN library (library_data.json)
+            a = doc.attr_el(el, "inLibrary")
+            lib = a.find("value").text if a is not None and a.find("value") is not None else ""
+            rg = id_ranges().get(lib)
+            if rg is None:
+                return None
+            lo, hi = rg
+            v = {"zero": 0, "one": 1, "lo-1": lo - 1, "lo": lo, "hi": hi, "hi+1": hi + 1, "large": 9999999}[spec["bound"]]
+            spec["value"] = "HED_%07d" % v
+            spec["library"] = lib
+            spec["expect"] = "reported" if (v < lo or v > hi) else "silent"
         set_attr(doc, el, "hedId", spec["value"])
         return (sec, name, code)
     if kind == "hed_id_changed":
@@ -657,14 +704,14 @@ def run_model(exe, groups):
         if len(lines) < 24:
             per = len(lines)
         for off in range(0, len(lines), per):
-            tasks.append((key, off, [env_line, base_line] + lines[off:off + per]))
+            tasks.append((key, off, [env_line, "(fixed %d %d)" % (FIXED, FIXED), base_line] + lines[off:off + per]))
     results = {k: [None] * len(v[2]) for k, v in groups.items()}
     sem = threading.Semaphore(nsh)
 
     def work(key, off, lines):
         with sem:
             outs = C.run_driver(exe, lines, shards=1)
-        for j, o in enumerate(outs[2:]):
+        for j, o in enumerate(outs[3:]):
             results[key][off + j] = o
     ths = [threading.Thread(target=work, args=t) for t in tasks]
     [t.start() for t in ths]
@@ -740,7 +787,10 @@ def oracle_bundled(r, res, eligible):
 
 
 def classify_known(r):
-    """Finding class of a seeded-fault failure, or None (= a new violation)."""
+    """Finding class of a seeded-fault failure, or None (= a new violation).  With the repairs in place (FIXED)
+    no class is accepted any more."""
+    if FIXED:
+        return None
     spec, impl, ctx = r["spec"], r["impl"], r.get("ctx", {})
     on = impl.get("on")
     # C14-F1: the validators of an UNDECLARED attribute are still run, and one written for another entry class /
@@ -768,6 +818,14 @@ def oracle_seed(r, res, stats):
     on, off = impl["on"], impl["off"]
     if isinstance(on, dict):
         res.report("seeded-fault-reported", case, f"check_compliance raised {on}", fid=classify_known(r))
+    elif spec.get("expect") == "silent":
+        # a boundary value INSIDE the id range is no fault: nothing may be reported for the hedId
+        hit = [i for i in on if i[0] == code and i[2] == sec and i[3] == name and i[4] == "hedId"]
+        if hit:
+            res.report("in-range-hed-id-accepted", case, f"hedId {spec['value']} lies in the range of library "
+                       f"{spec.get('library')!r} but was reported: {hit[:3]}")
+        else:
+            stats["reported"]["hed_id_range(in range, silent)"] += 1
     else:
         hit = [i for i in on if i[0] == code and (sec == "-" or (i[2] == sec and i[3] == name))]
         if not hit:
@@ -775,7 +833,7 @@ def oracle_seed(r, res, stats):
                        f"expected {code} at {sec}:{name}; reported there: {[i for i in on if i[3] == name][:6]}",
                        fid=classify_known(r))
         else:
-            stats["reported"][kind] += 1
+            stats["reported"][kind + ("(as undeclared attribute)" if spec.get("subsumed_by_undeclared") else "")] += 1
     if isinstance(off, dict):
         if not isinstance(on, dict):
             res.report("warnings-off-only-errors", case, f"check_compliance(False) raised {off}")
@@ -783,7 +841,7 @@ def oracle_seed(r, res, stats):
         bad = [i for i in off if i[1] != "E"]
         if bad:
             res.report("warnings-off-only-errors", case, f"non-error issues with warnings off: {bad[:5]}")
-        if kind in ERROR_KINDS and not isinstance(on, dict):
+        if (kind in ERROR_KINDS or spec.get("subsumed_by_undeclared")) and not isinstance(on, dict):
             if not [i for i in off if i[0] == code and (sec == "-" or (i[2] == sec and i[3] == name))]:
                 res.report("error-survives-warnings-off", case, f"{code} missing with warnings off")
 
@@ -873,7 +931,7 @@ def plan(tier, seed, proof_ok):
         bases = {"HED8.3.0.xml": 5, "HED_score_2.0.0.xml": 5, "HED8.1.0.xml": 1, "HED_testlib_2.0.0.xml": 1,
                  "HED_score_1.1.0.xml": 1}
     else:
-        bases = {f: (45 if f in ("HED8.3.0.xml", "HED_score_2.0.0.xml") else 28) for f in elig}
+        bases = {f: (36 if f in ("HED8.3.0.xml", "HED_score_2.0.0.xml") else 22) for f in elig}
     if not proof_ok:
         bases = {k: v * 3 for k, v in bases.items()}
     for f, per_kind in bases.items():
@@ -884,6 +942,25 @@ def plan(tier, seed, proof_ok):
             pos = positions(doc, kind)
             seedable[(f, kind)] = len(pos)
             if not pos:
+                continue
+            if kind == "hed_id_range":
+                # every boundary value, at sampled entries of EVERY section and of every library of the schema
+                groups = collections.defaultdict(list)
+                for p in pos:
+                    if p["bound"] != "zero":
+                        continue
+                    el = doc.elems(p["sec"])[p["idx"]]
+                    a = doc.attr_el(el, "inLibrary")
+                    lib = a.find("value").text if a is not None and a.find("value") is not None else ""
+                    groups[(p["sec"], lib)].append(p["idx"])
+                chosen = []
+                for (sec_g, lib_g), idxs in sorted(groups.items()):
+                    k_g = max(1, per_kind // 5)
+                    for i_g in (idxs if len(idxs) <= k_g else rng.sample(idxs, k_g)):
+                        chosen += [{"kind": kind, "sec": sec_g, "idx": i_g, "bound": b} for b in HED_ID_BOUNDS]
+                for p in chosen:
+                    jobs.append((f, p, rng.randrange(1 << 30)))
+                    counts[kind] += 1
                 continue
             n = min(len(pos), per_kind * (3 if kind in ("undeclared_attr", "deprecated_from", "dup_node") else 1))
             for p in (pos if n == len(pos) else rng.sample(pos, n)):
@@ -910,6 +987,10 @@ CORPUS = [
     ("HED8.3.0.xml", {"kind": "undeclared_attr", "sec": "tags", "idx": 0, "attr": "defaultUnits", "flag": False}, 1),
     ("HED_score_2.0.0.xml", {"kind": "hed_id_range", "sec": "tags", "idx": 149, "value": "HED_9999999"}, 1),
     ("HED8.3.0.xml", {"kind": "undeclared_attr", "sec": "units", "idx": 3, "attr": "takesValue", "flag": True}, 1),
+    ("HED8.3.0.xml", {"kind": "undeclared_attr", "sec": "tags", "idx": 5, "attr": "allowedCharacter", "flag": True}, 1),
+    ("HED8.3.0.xml", {"kind": "undeclared_attr", "sec": "tags", "idx": 7, "attr": "suggestedTag", "flag": True}, 1),
+    ("HED8.3.0.xml", {"kind": "hed_id_range", "sec": "tags", "idx": 0, "bound": "zero"}, 1),
+    ("HED_score_2.0.0.xml", {"kind": "hed_id_range", "sec": "unitModifiers", "idx": 2, "bound": "zero"}, 1),
     ("HED8.3.0.xml", {"kind": "in_library", "sec": "tags", "idx": 0}, 1),
     ("HED8.3.0.xml", {"kind": "dup_node", "sec": "tags", "idx": 1, "target": "sibling"}, 1),
     ("HED8.1.0.xml", {"kind": "deprecated_from", "sec": "units", "idx": 2, "how": "not_older"}, 1),
@@ -922,6 +1003,8 @@ def run(tier, seed, res, model_ok=True, proof_ok=True):
     jobs = list(CORPUS) + jobs
     paths = [os.path.join(C.REPO, X.SCHEMA_DIR, f) for f in files]
     stats = {"reported": collections.Counter(), "disagreements": 0, "outside_domain": 0}
+    if not FIXED:
+        res.known_ids.update(LEGACY)
 
     with Pool(int(C.JOBS)) as pool:
         bundled = pool.map(bundled_job, paths, chunksize=1)
@@ -1015,7 +1098,7 @@ def replay(payload):
         return 1
     r = seed_job((case["base"], case["spec"], case["seed"]))
     res = C.Result(PROP)
-    res.known_ids = {}
+    res.known_ids = {} if FIXED else dict(LEGACY)
     stats = {"reported": collections.Counter(), "disagreements": 0, "outside_domain": 0}
     if "impl" in r:
         oracle_seed(r, res, stats)
